@@ -414,10 +414,25 @@ func TestVerifC20(t *testing.T) {
 	}
 	// ---- long random sequences with bursts of unknown/processing errors > 100 (the error channel's buffer)
 	rng := run.Rand("long")
+	quietRuns := 0
+	// two fixed ones so that every run has them
+	scripts = append(scripts, c20script{syms: "F" + strings.Repeat("A", 150) + "FEF" + strings.Repeat("T", 101) + "FX", cancelAt: -1})
+	scripts = append(scripts, c20script{syms: strings.Repeat("AROTMN", 40) + "FUFX", cancelAt: -1})
 	for i := 0; i < run.Pick(40, 400); i++ {
 		ln := 50 + rng.Intn(run.Pick(600, 2000))
 		b := make([]byte, 0, ln+300)
 		for len(b) < ln {
+			if rng.Intn(60) == 0 {
+				// a long quiet spell on the wire: more than 100 transient failures in a row (would-block, timeouts,
+				// resets, in any mix), then traffic again
+				quiet := []c20kind{c20A, c20T, c20R, c20O, c20M, c20N}
+				for j, n := 0, 101+rng.Intn(120); j < n; j++ {
+					b = append(b, byte(quiet[rng.Intn(len(quiet))]))
+				}
+				b = append(b, byte(c20F), byte(c20F))
+				quietRuns++
+				continue
+			}
 			if rng.Intn(40) == 0 {
 				burst := 101 + rng.Intn(60)
 				k := c20U
@@ -443,6 +458,7 @@ func TestVerifC20(t *testing.T) {
 		}
 		scripts = append(scripts, sc)
 	}
+	run.Count("scripts_with_more_than_100_transient_failures_in_a_row", int64(quietRuns+2))
 	run.Note("scripts: %d exhaustive (length<=%d, alphabet %d), %d with cancellation at every read index (length<=%d), %d long random", nExh, L, len(c20alphabet), nCancel, Lc, len(scripts)-nExh-nCancel-6)
 
 	// run concurrently: unknown errors cost a 5 ms back-off each inside the receiver
